@@ -20,7 +20,7 @@ EXPLANATION += (  # round-3 supplement
     ' M6 the element loop of script-side equality is dominated by a comparison of both lengths read under the held guards. M7 two mutexes held together are acquired in address order. M8 functions that own an element they are given drop it on every return path. M4 is decided by boolean path simulation over the index/len comparisons.'
 )
 EXPLANATION += (
-    ' M2 accepts a helper that only takes the two locks when every caller has proven the arguments distinct (Arc::ptr_eq) before the call; M6 follows guards handed out by a tuple-returning helper. M9 List.join is the std slice join applied to a snapshot (to_vec) and the separator parameter.'
+    ' M2 accepts a helper that only takes the two locks when every caller has proven the arguments distinct (Arc::ptr_eq) before the call; M6 follows guards handed out by a tuple-returning helper. M9 List.join is the std slice join applied to a snapshot (to_vec) and the separator parameter (or a hand-written loop whose separator decision depends only on the position). M10 no path of list equality returns true without passing the element comparison (no reflexivity shortcut for aliased handles: NaN).'
 )
 ASSUMPTIONS = [
     "std::sync::Mutex is not re-entrant; a second lock() on a held mutex in one thread deadlocks or panics",
@@ -400,6 +400,16 @@ def rule_m6(F):
         # the element loop: it contains a call through the vtable's eq function or an element lookup
         if not any(b.blocks[x]["term"]["k"] == "call" and ("ind" in b.blocks[x]["term"]["f"] or hir.last(mir.callee_def(b.blocks[x]["term"])) == "get") for x in nodes):
             continue
+        # a loop that compares the elements of ONE list with themselves (two handles of the same list) has no second length
+        roots_ = set()
+        for x in nodes:
+            tx = b.blocks[x]["term"]
+            if tx["k"] == "call" and "ind" in tx["f"]:
+                for a_ in tx["args"]:
+                    roots_ |= D(a_)
+        if roots_ and len(roots_ & {"arg1", "arg2"}) < 2:
+            r.inst("element loop over one list (self comparison)", {"loop_header_bb": h, "roots": sorted(roots_)})
+            continue
         n += 1
         ok = any(g in dom[h] for g in gates)
         r.inst("element loop #%d" % n, {"loop_header_bb": h, "length_gates": gates, "gated": ok})
@@ -546,6 +556,57 @@ def rule_m9(F):
     return r
 
 
+def rule_m10(F):
+    """`==` on lists is the element-wise comparison of the shared vector, and element equality need not be reflexive (NaN): also two
+    handles of the SAME list are equal only if every element equals itself.  No path returns `true` without going through the
+    element comparison (the loop over the elements, or the slice comparison)."""
+    r = RuleResult("C15.M10", "list equality never answers true without comparing the elements (no reflexivity shortcut for aliased handles)", floor=2)
+    for fn in ("<value::list::ErasedList as std::cmp::PartialEq>::eq", "<value::list::boundary::List<T> as std::cmp::PartialEq>::eq"):
+        b = F.body(fn)
+        if b is None or not b.mir:
+            r.missing(fn)
+            continue
+        loops = mir.natural_loops(b)
+        cmp_blocks = set()
+        defs = mir.Defs(b)
+        raw = {bi for bi, t in mir.calls(b) if hir.last(mir.callee_def(t) or "") in ("from_raw_parts", "to_vec", "as_slice")}
+        for bi, t in mir.calls(b):
+            d = mir.callee_def(t) or ""
+            if "ind" in t["f"]:
+                cmp_blocks.add(bi)
+            elif hir.last(d) in ("eq", "ne") and any(mir.is_place_op(a) and (mir.back_calls(b, defs, a[1][0]) & raw) for a in t["args"]):
+                cmp_blocks.add(bi)
+        gate = set(cmp_blocks)
+        for h, nodes in loops:
+            if nodes & cmp_blocks:
+                gate.add(h)
+        trues = []
+        for bi, blk in enumerate(b.blocks):
+            for st in blk["stmts"]:
+                if st["k"] == "assign" and st["p"] == [0] and st["rv"]["k"] == "use":
+                    c = mir.op_const(st["rv"]["o"])
+                    if c is not None and c.get("v") in (1, True):
+                        trues.append((bi, st.get("line")))
+        if not gate:
+            r.missing("the element comparison in " + fn)
+            continue
+        # blocks reachable from the entry without passing a gate
+        seen, work = set(), [0]
+        while work:
+            x = work.pop()
+            if x in seen or x in gate:
+                continue
+            seen.add(x)
+            work.extend(mir.succs(b.blocks[x]))
+        short = [(bi, ln) for bi, ln in trues if bi in seen]
+        r.inst(fn, {"element_comparison_sites": len(cmp_blocks), "constant_true_exits": len(trues), "reachable_without_comparing": len(short)})
+        for bi, ln in short:
+            r.bad(fn, "true without comparing elements", relfile(b.file), ln or b.line,
+                  "list equality returns true on a path that never compares the elements (two handles of the same list): the shared-vector model compares element by element, and "
+                  "`[NaN] == itself` is false there")
+    return r
+
+
 def rules(ctx):
     F = ctx["F"]
     bodies = _scope(F)
@@ -560,7 +621,7 @@ def rules(ctx):
                    "value::list::ErasedList::concat"):
         if not F.has(anchor):
             m1.missing(anchor)
-    return [m1, m2, rule_m4(F), rule_m5(F), rule_m6(F), m7, rule_m8(F), rule_m9(F)]
+    return [m1, m2, rule_m4(F), rule_m5(F), rule_m6(F), m7, rule_m8(F), rule_m9(F), rule_m10(F)]
 
 
 def canary(C):
